@@ -2,7 +2,9 @@
 (`from undo_patterns import *`).  Each function gets the info dict of one violating behaviour as produced by
 tools/undo_pipe.py: {"preds": [[pred, event ordinal]], "schedule": {...}, "event": failing event (slim),
 "trace": [slim events up to and including the failing one]}.  Slim events carry k, r, call, ret, us, rs, uv, stk
-(id sets of every stack item BEFORE an undo/redo call), upd {ins: [{id,o,ro,cont,sub,par,kind}], del}, obs {lst, dead, gone}."""
+(id sets of every stack item BEFORE an undo/redo call), upd {ins: [{id,o,ro,cont,sub,par,kind}], del}, obs {lst, dead, gone},
+alias (undo / redo calls only: classes of element ids that carried the same value, in order of creation = an element and its
+re-created copies, including the copies made by this call)."""
 
 INVERSE = {"C12_OneStep", "C12_InverseUndo", "C12_InverseRedo", "C12_ReturnValue"}
 
@@ -31,7 +33,8 @@ def _own_ids(info):
 
 
 def c12_redo_refused_own_tombstone_neighbour(info):
-    """The inverse law fails at an undo / redo call that had to re-create a MAP ENTRY and did not: in the entry's chain
+    """The inverse law fails at an undo / redo call that had to re-create a MAP ENTRY (an entry of a map, or an ATTRIBUTE of
+    an XML element / text node: both are keyed chains `<parent>|<key>`) and did not: in the entry's chain
     everything to the right of it is a tombstone created by the manager's own replica under the tracked origin (or by an
     earlier undo / redo) -- no element of another origin is involved -- and at least one of these tombstones is recorded as
     deleted in no stack item that still existed when the entry was processed (its own stack item was passed over and
@@ -71,6 +74,185 @@ def c12_redo_refused_own_tombstone_neighbour(info):
                         and any(x not in below_del and x not in ins for x in right)):
                     return True
     return False
+
+
+def _nondet_candidates(info):
+    """C12_Deterministic: the event at which two executions of the same schedule differed, as recorded by either execution
+    (the slim `nondet` event carries `at` and `alt`); element ids of the two executions are unrelated, so a candidate may
+    only be examined through what it carries itself (stk, alias, upd, obs)"""
+    e = info.get("event") or {}
+    trace = info.get("trace") or []
+    out = []
+    if e.get("k") == "nondet" and e.get("at"):
+        if 1 <= e["at"] <= len(trace):
+            out.append(trace[e["at"] - 1])
+        if isinstance(e.get("alt"), dict):
+            out.append(e["alt"])
+    return out
+
+
+def _wrong_copy_removed(e):
+    """an undo / redo call removed the re-created copy of an element that NO consumed stack item records as inserted, while
+    the copy of an element that IS recorded stays alive in the same chain (Store::follow_redone continued with the `redone`
+    pointer of a squashed block without the offset of the unit it was following)"""
+    if not _is_pop(e) or "stk" not in e or "obs" not in e or not e.get("alias"):
+        return False
+    undo = e["call"]["a"] == "undo"
+    stack = e["stk"]["u" if undo else "r"]
+    left = e["us"] if undo else e["rs"]
+    if left >= len(stack):
+        return False
+    cls = {}
+    for g in e["alias"]:
+        g = [tuple(x) for x in g]
+        for x in g:
+            cls[x] = g
+    ins = set()
+    for item in stack[left:]:
+        ins |= _ids(item["ins"])
+    dead = {tuple(x) for x in e["obs"]["dead"]} | {tuple(x) for x in e["obs"].get("gone", [])}
+    lst = {c: [tuple(x) for x in v] for c, v in e["obs"]["lst"].items()}
+    made_now = {tuple(u["id"]) for u in e["upd"]["ins"]}
+    for d in (tuple(x) for x in e["upd"]["del"]):
+        g = cls.get(d)
+        if d in ins or d in made_now or not g or g[0] == d or any(x in ins for x in g):
+            continue                                  # d is a copy of an element the consumed steps did not insert
+        for chain in lst.values():
+            if d not in chain:
+                continue
+            # an element recorded as inserted (or a copy of one) is still alive in that chain
+            if any(z not in dead and (z in ins or any(x in ins for x in cls.get(z, []))) for z in chain):
+                return True
+    return False
+
+
+def c12_undo_misses_split_copy(info):
+    """The inverse law fails at an undo / redo call that had to remove what a captured step inserted: two consecutive units
+    x, x+1 of ONE inserted run (text characters / array values: x+1 was inserted with origin x by the same transaction), both
+    recorded as insertions of a consumed stack item, had been deleted and re-created by an earlier undo / redo (the item's
+    `redone` pointer names the copy of its FIRST unit), and the copy was split afterwards (something was inserted between the
+    two copies, or one of them was deleted and re-created again): the call removed the copy of x and left the copy of x+1
+    alive.  UndoManager::try_process follows `redone` once per captured item and deletes only the block that starts there
+    and looks at no unit behind the first fragment.
+    (A second form of the same routine - Store::follow_redone dropped the offset inside a squashed block on later hops, the
+    call removed the copy of ANOTHER unit, hash-order dependent - was repaired in /repo by 78d3388; `_wrong_copy_removed` /
+    `_nondet_candidates` recognise it and are kept for triage only, no known finding refers to them.)"""
+    e = info.get("event")
+    if not _is_pop(e) or "stk" not in e or "obs" not in e or not e.get("alias"):
+        return False
+    if not all(p[0] in INVERSE for p in info["preds"] if p[0].startswith("C12_")):
+        return False
+    undo = e["call"]["a"] == "undo"
+    stack = e["stk"]["u" if undo else "r"]
+    left = e["us"] if undo else e["rs"]
+    if left >= len(stack):
+        return False
+    cls = {}
+    for g in e["alias"]:
+        g = [tuple(x) for x in g]
+        for x in g:
+            cls[x] = g
+    origin_of, born = {}, {}
+    for n, ev in enumerate(info.get("trace") or []):
+        for u in ev.get("upd", {}).get("ins", []):
+            origin_of[tuple(u["id"])] = tuple(u["o"])
+            born[tuple(u["id"])] = n
+    dead = {tuple(x) for x in e["obs"]["dead"]} | {tuple(x) for x in e["obs"].get("gone", [])}
+    lst = {c: [tuple(x) for x in v] for c, v in e["obs"]["lst"].items()}
+    removed_now = {tuple(x) for x in e["upd"]["del"]}
+
+    def chain_of(z):
+        for c, chain in lst.items():
+            if z in chain:
+                return chain
+        return None
+
+    for item in stack[left:]:
+        ins = _ids(item["ins"])
+        for x in ins:
+            y = (x[0], x[1] + 1)
+            if y not in ins or x not in dead or y not in dead or origin_of.get(y) != x or born.get(x) != born.get(y):
+                continue
+            cx, cy = cls.get(x, [x])[1:], cls.get(y, [y])[1:]
+            gone_x = [z for z in cx if z in removed_now]
+            alive_y = [z for z in cy if z not in dead and chain_of(z) is not None]
+            for a in gone_x:
+                for b in alive_y:
+                    chain = chain_of(b)
+                    if a not in chain:
+                        continue
+                    split = (a[0], a[1] + 1) != b or chain.index(b) != chain.index(a) + 1
+                    if split:
+                        return True
+    return False
+
+
+def c12_redo_splits_collected_block(info):
+    """The inverse law fails at an undo / redo call that had to re-create a nested sequence (array, text, XML text node)
+    TOGETHER WITH its elements: one element z that the call had to re-create (recorded as deleted in a consumed stack item, its
+    container's owner as well) was not re-created, and z is (a) itself the re-created copy of an element w that still sits to
+    its right in the old chain (w.redone -> z) and (b) a non-first unit of a squashed block (its left neighbour in the chain has
+    the preceding clock of the same client and is recorded in the same deletions).  ItemPtr::redo, tracing the right neighbours
+    of the block it re-creates (or of another block to its left) through their `redone` pointers, materializes w.redone = z and
+    thereby SPLITS the collected block; the split-off part is in no `to_redo` entry and is never re-created."""
+    e = info.get("event")
+    if not _is_pop(e) or "stk" not in e or "obs" not in e or not e.get("alias"):
+        return False
+    if not all(p[0] in INVERSE for p in info["preds"] if p[0].startswith("C12_")):
+        return False
+    undo = e["call"]["a"] == "undo"
+    stack = e["stk"]["u" if undo else "r"]
+    left = e["us"] if undo else e["rs"]
+    if left >= len(stack):
+        return False
+    cls = {}
+    for g in e["alias"]:
+        g = [tuple(x) for x in g]
+        for x in g:
+            cls[x] = g
+    dead = {tuple(x) for x in e["obs"]["dead"]}
+    made_now = {tuple(u["id"]) for u in e["upd"]["ins"]}
+    want = set()
+    for item in stack[left:]:
+        want |= _ids(item["del"]) - _ids(item["ins"])
+    for c, chain in e["obs"]["lst"].items():
+        head, sub = c.split("|", 1)
+        if sub != "" or ":" not in head:
+            continue                                     # nested sequences only
+        owner = tuple(int(x) for x in head.split(":"))
+        if owner not in want or owner not in dead:
+            continue
+        chain = [tuple(x) for x in chain]
+        for i, z in enumerate(chain):
+            if i == 0 or z not in want or z not in dead or z not in cls:
+                continue
+            g = cls[z]
+            earlier = g[:g.index(z)]
+            if any(x in made_now for x in g):
+                continue                                 # z was re-created by this call
+            y = chain[i - 1]
+            if y != (z[0], z[1] - 1) or y not in want:
+                continue
+            if any(w in chain[i + 1:] for w in earlier):
+                return True
+    return False
+
+
+def c12_redo_right_origin_is_origin(info):
+    """An undo / redo call re-created a nested container together with its children and one re-created child carries a right
+    origin EQUAL to its origin (ill-formed position: C04_Between, reported for the call as C12_Replicated / C12_Converge).
+    ItemPtr::redo finds the right neighbour in the new parent by following the `redone` pointers of the old right siblings; an
+    original sits to the right of its own copy in the old chain, so the newest copy of such a sibling can be the item already
+    chosen as LEFT neighbour."""
+    e = info.get("event")
+    if not _is_pop(e):
+        return False
+    preds = {p[0] for p in info["preds"] if p[0].startswith("C12_")}
+    if not preds <= {"C12_Replicated", "C12_Converge"}:
+        return False
+    if not any(u["kind"] == "type" for u in e["upd"]["ins"]):
+        return False
+    return any(tuple(u["o"]) != (0, 0) and tuple(u["o"]) == tuple(u["ro"]) for u in e["upd"]["ins"])
 
 
 def _recreated_families(trace):
@@ -139,5 +321,31 @@ PROPOSED_KNOWN = [
              "an entry whose right neighbours in the key's chain are tombstones of the tracked origin itself that no remaining "
              "stack item records as deleted (set+remove inside one capture step that was passed over and dropped, or whose "
              "redo-stack item was consumed / cleared) -- e.g. S1 m.k1=2; S2 remove k1; S3 m.k1=5, remove k1; undo -> {} instead "
-             "of {k1:2}. Same rule as Yjs (redoItem); a repair would have to tell own tombstones from foreign ones."},
+             "of {k1:2}. Same rule as Yjs (redoItem); a repair would have to tell own tombstones from foreign ones. "
+             "Attributes of XML elements are keyed chains like map entries and show the same behaviour "
+             "(<e id=2>; remove id; set id=5 + remove id; undo -> element removed instead of <e id=2>)."},
+    {"id": "KF-C12-2", "property": "C12",
+     "pattern": "c12_undo_misses_split_copy",
+     "predicates": ["C12_OneStep", "C12_InverseUndo", "C12_InverseRedo", "C12_ReturnValue"],
+     "what": "undo of an insertion leaves part of it behind: the inserted run (>= 2 text characters / array values in one item) "
+             "was deleted and re-created by an earlier undo/redo, and the re-created copy was split afterwards (insertion "
+             "between the copies, or partial deletion); UndoManager::try_process follows the item's `redone` pointer once and "
+             "deletes only the first fragment of the copy -- e.g. "
+             "S1 insert 'ab'; S2 delete 'ab'; undo; S3 insert 'c' between a and b; undo; undo -> 'b' instead of ''. "
+             "Candidate repair: notes/undoxml-split-copy.patch.diff (walk the copy fragment by fragment)."},
+    {"id": "KF-C12-3", "property": "C12", "predicate": "C12_OneStep",
+     "pattern": "c12_redo_splits_collected_block",
+     "what": "undo/redo that re-creates a nested sequence together with its elements loses an element: the element is itself a "
+             "re-created copy that was squashed behind its left neighbour, and its original (redone -> the copy) still sits to "
+             "its right; ItemPtr::redo traces the right neighbours through `redone`, materializes the copy and thereby splits "
+             "the block it is re-creating (or a block still waiting in to_redo); the split-off part is never re-created -- e.g. "
+             "S1 m.k1 = [r], insert q at 0; S2 delete r; undo; undo; redo -> {k1:[q]} instead of {k1:[q,r]} (same with an XML "
+             "text node and its characters). Candidate repair: notes/undoxml-redo-splits-itself.patch.diff."},
+    {"id": "KF-C12-4", "property": "C12", "predicate": "C12_Replicated",
+     "pattern": "c12_redo_right_origin_is_origin",
+     "what": "undo/redo that re-creates a nested container with its children gives a re-created child a right origin equal to "
+             "its origin (ill-formed YATA position, C04_Between): ItemPtr::redo takes the newest copy of an old right sibling as "
+             "right neighbour although that copy is the item already chosen as left neighbour (an original sits right of its own "
+             "copy) -- e.g. <e>[T]; delete T; undo; insert <f> after T; delete <e>; undo. Content by value is right, all "
+             "replicas seen so far converge. Candidate repair: notes/undoxml-redo-right-origin.patch.diff."},
 ]
